@@ -43,6 +43,10 @@ class _dtype_value_context:
     def __enter__(
         self,
     ):
+        # Snapshot the values in force right now (not at construction time), so that __exit__ restores them
+        self._orig_float_value = self.__class__.value(dtype=torch.float)
+        self._orig_double_value = self.__class__.value(dtype=torch.double)
+        self._orig_half_value = self.__class__.value(dtype=torch.half)
         self.__class__._set_value(
             self._instance_float_value,
             self._instance_double_value,
@@ -50,7 +54,10 @@ class _dtype_value_context:
         )
 
     def __exit__(self, *args):
-        self.__class__._set_value(self._orig_float_value, self._orig_double_value, self._orig_half_value)
+        # Restore unconditionally: a previously unset (None) slot must become unset again
+        self.__class__._global_float_value = self._orig_float_value
+        self.__class__._global_double_value = self._orig_double_value
+        self.__class__._global_half_value = self._orig_half_value
         return False
 
 
@@ -85,6 +92,8 @@ class _feature_flag:
         self.state = state
 
     def __enter__(self):
+        # Snapshot the state in force right now (not at construction time), so that __exit__ restores it
+        self.prev = self.__class__._state
         self.__class__._set_state(self.state)
 
     def __exit__(self, *args):
@@ -110,6 +119,8 @@ class _value_context:
     def __enter__(
         self,
     ):
+        # Snapshot the value in force right now (not at construction time), so that __exit__ restores it
+        self._orig_value = self.__class__.value()
         self.__class__._set_value(self._instance_value)
 
     def __exit__(self, *args):
